@@ -285,6 +285,11 @@ var regressionInputs = []string{
 	"SELECT 1 ORDER BY x COLLATE 'a\nb'",
 	"INSERT INTO t FROM INFILE 'a\nb' COMPRESSION 'g\nz'",
 	"SELECT 1 INTO OUTFILE 'a\nb'",
+	"SELECT COLUMNS('a') REPLACE (x + 1 AS x",
+	"SELECT COLUMNS(a, b) REPLACE (a AS b; SELECT 1",
+	"SELECT COLUMNS(a) REPLACE (5 AS",
+	"KILL QUERY WHERE query_id = 'x' SYNCHRONOUS",
+	"SELECT t.1e",
 	"SELECT CASE WHEN 1 THEN 2 END AS format",
 	"SELECT * REPLACE (1 AS format) FROM t",
 	"ALTER TABLE t ADD STATISTICS c TYPE countmin(5)",
